@@ -318,6 +318,12 @@ def run_resume(ctx, idx0):
                 f = Pb.fs()[fn]
                 split_check(ctx, 'proximal_gradient', '%s;f=%s' % (kind, fn), lambda x, k: S.proximal_gradient(x, f, data, gam, k), x0, niter, n1,
                             callback_run=lambda x, k, cb: S.proximal_gradient(x, f, data, gam, k, callback=cb))
+                # relaxation: the (relaxed) iterate is the whole state - under- and over-relaxed runs resume exactly too, and the
+                # element handed back is the iterate the last callback saw
+                for lam_ in (0.6, 1.5):
+                    split_check(ctx, 'proximal_gradient', '%s;f=%s;lam=%s' % (kind, fn, 'under' if lam_ < 1 else 'over'),
+                                lambda x, k, lam_=lam_: S.proximal_gradient(x, f, data, gam, k, lam=lam_), x0, niter, n1,
+                                callback_run=lambda x, k, cb, lam_=lam_: S.proximal_gradient(x, f, data, gam, k, lam=lam_, callback=cb))
                 split_check(ctx, 'steepest_descent(constant-step)', kind,
                             lambda x, k: S.steepest_descent(data, x, line_search=gam, maxiter=k, tol=0) if k else None, x0, niter, n1,
                             callback_run=lambda x, k, cb: S.steepest_descent(data, x, line_search=gam, maxiter=k, tol=0, callback=cb))
@@ -407,6 +413,13 @@ def run_resume(ctx, idx0):
                     x0p = X.element(np.abs(np.asarray(x0)) + 0.1)
                     split_check(ctx, 'mlem', kind, lambda x, k: S.mlem(Ap, x, bp, k), x0p, niter, n1, tol=1e-9,
                                 callback_run=lambda x, k, cb: S.mlem(Ap, x, bp, k, callback=cb))
+                    # start values with exact zeros and entries far below 1 (legal: "non-negative"); data that push entries down
+                    x0z = x0p.copy()
+                    x0z[0] = 0.0
+                    if X.size > 2:
+                        x0z[1] = 1e-12
+                    bsmall = Y.element(np.asarray(bp) * 1e-3)
+                    split_check(ctx, 'mlem', kind + ';start-with-zero-and-tiny-entries', lambda x, k: S.mlem(Ap, x, bsmall, k), x0z, max(niter, 4), max(1, min(n1, 3)), tol=1e-13)
                     # user-supplied sensitivities: a float, or one image per operator (the same objects handed to every call -
                     # they are the caller's data and must come back unchanged); ordered subsets sharing one image
                     sens = X.element(rng.uniform(0.5, 2.0, size=X.shape))
